@@ -35,6 +35,7 @@ type spinHook struct {
 	counts  map[string]int64
 	parked  int64
 	lastMsg string
+	recent  []string
 	active  atomic.Bool
 }
 
@@ -51,6 +52,13 @@ func (h *spinHook) Fire(e *log.Entry) error {
 		key = key[:80]
 	}
 	h.mu.Lock()
+	if len(h.recent) < 12 {
+		m := e.Message
+		if len(m) > 300 {
+			m = m[:300]
+		}
+		h.recent = append(h.recent, m)
+	}
 	h.counts[key]++
 	n := h.counts[key]
 	if n > spinLimit {
@@ -69,6 +77,7 @@ func (h *spinHook) reset() {
 	h.counts = map[string]int64{}
 	h.parked = 0
 	h.lastMsg = ""
+	h.recent = nil
 	h.mu.Unlock()
 }
 
@@ -78,6 +87,13 @@ func ResetStep() {
 	hook.mu.Lock()
 	hook.counts = map[string]int64{}
 	hook.mu.Unlock()
+}
+
+// RecentLogs returns the first warn/error log records of this execution (diagnostics only).
+func RecentLogs() []string {
+	hook.mu.Lock()
+	defer hook.mu.Unlock()
+	return append([]string{}, hook.recent...)
 }
 
 // Spins reports how many goroutines were parked by the detector in this execution.
